@@ -326,7 +326,7 @@ class Interval(NominalValueMixin):
         elif otherType == "Interval":
             lo, hi = self.lo - other.hi, self.hi - other.lo
         else:
-            NotImplemented
+            return NotImplemented
         return Interval(lo, hi)
 
     def __rsub__(self, left):
@@ -379,7 +379,7 @@ class Interval(NominalValueMixin):
         elif otherType == "Interval":
             lo, hi = divide(self, other)
         else:
-            NotImplemented
+            return NotImplemented
         return Interval(lo, hi)
 
     def __rtruediv__(self, left):
